@@ -179,6 +179,7 @@ func one(k *run.K) {
 	variants := map[string]geom.Geometry{
 		"ring rotation": rot, "Reverse": g.Reverse(), "ForceCW": cw, "ForceCCW": ccw, "permute": shared.Permute(k.Rng, g),
 		"Force2D": g.Force2D(), "ForceXYZM": g.ForceCoordinatesType(geom.DimXYZM),
+		"independent Z/M at every control point": shared.Payload(k.Rng, g, shared.PayloadCT(k.Rng)),
 	}
 	for name, v := range variants {
 		okv := near(v.Area(), gotA, tolA) && near(v.Length(), gotL, tolL)
